@@ -552,9 +552,8 @@ func c03Exec(scAny any, c *simcheck.Ctx) *simcheck.Violation {
 			pc.IOErrFrom = k
 			op := *final
 			op.Fail = append([]string{}, executed...)
-			h.w.failLate = true
+			op.FailLate = true // (bodies fail after writing their outputs)
 			res := faulted(pc, &op)
-			h.w.failLate = false
 			c.St.Count("disk_full_runs", 1)
 			if v := procFailure(res); v != nil {
 				if v.Class == simcheck.EngineError {
